@@ -201,7 +201,7 @@ pub fn property() -> Property {
             Box::new(Sub {
                 name: "llr",
                 rule: "received samples: polar with |r| log-uniform in [1e-6, 1e3], |r| in [0.5, 1.6], exact constellation points, decision boundaries, origin, axes; sigma log-uniform in [1e-3, 1e3] or uniform in [0.05, 1.5], subject to |r|/sigma^2 <= 1e12; oracle: own max-shifted 4-term log-sum-exp over the label partitions (= posterior log-ratio since |s| = 1), tolerance 64 eps (|r|/sigma^2 + 1); BPSK: -2r/sigma^2 within 4 eps relative; non-trivial = sample off the constellation with some |LLR| < 20",
-                cases: |t| t.pick(200_000, 20_000_000),
+                cases: |t| t.pick(3_000_000, 100_000_000),
                 strategy: sample_strategy,
                 check: check_llr,
                 health: &[("soft-region", 0.30)],
@@ -209,7 +209,7 @@ pub fn property() -> Property {
             Box::new(Sub {
                 name: "roundtrip",
                 rule: "bit sequences of 0..39 symbols: every symbol equals the own mapping of its three bits in order (bit order within a symbol), hard decisions (LLR <= 0 -> 1) of the demodulated noiseless symbols return the sequence for any sigma, for 8PSK and BPSK; non-trivial = at least two symbols",
-                cases: |t| t.pick(20_000, 1_000_000),
+                cases: |t| t.pick(300_000, 10_000_000),
                 strategy: seq_strategy,
                 check: check_seq,
                 health: &[],
